@@ -268,7 +268,7 @@ func genCase(t *rapid.T) Case {
 		return Case{
 			Shape:  shape,
 			Layout: int(rapid.SampledFrom(layouts).Draw(t, "layout")),
-			Via:    rapid.SampledFrom([]string{"flat", "flat", "multipoint", "linestring", "polygon"}).Draw(t, "via"),
+			Via:    rapid.SampledFrom([]string{"flat", "flat", "multipoint", "linestring", "polygon", "polygon-rings", "multilinestring", "multipolygon"}).Draw(t, "via"),
 			PtsF:   pts,
 			Extra:  rapid.SampledFrom([]string{"", "", "const:0", "const:1", "mix"}).Draw(t, "extra"),
 		}
@@ -277,7 +277,7 @@ func genCase(t *rapid.T) Case {
 	return Case{
 		Shape:  shape,
 		Layout: int(rapid.SampledFrom(layouts).Draw(t, "layout")),
-		Via:    rapid.SampledFrom([]string{"flat", "flat", "multipoint", "linestring", "polygon"}).Draw(t, "via"),
+		Via:    rapid.SampledFrom([]string{"flat", "flat", "multipoint", "linestring", "polygon", "polygon-rings", "multilinestring", "multipolygon"}).Draw(t, "via"),
 		Pts:    pts,
 		Extra:  rapid.SampledFrom([]string{"", "", "const:0", "const:1", "const:3", "const:5", "x", "y", "mix"}).Draw(t, "extra"),
 	}
@@ -409,6 +409,20 @@ func hullOf(c Case, flat []float64) error {
 		res = xy.ConvexHull(geom.NewLineStringFlat(layout, flat))
 	case "polygon":
 		res = xy.ConvexHull(geom.NewPolygonFlat(layout, flat, []int{len(flat)}))
+	case "polygon-rings", "multilinestring", "multipolygon":
+		// the points spread over several parts (cut after a third and after two thirds of
+		// them, plus an empty part): every coordinate of the geometry is an input point,
+		// whichever ring, line or polygon it sits in
+		n := len(flat) / stride
+		e1, e2 := (n/3)*stride, (2*n/3)*stride
+		switch c.Via {
+		case "polygon-rings":
+			res = xy.ConvexHull(geom.NewPolygonFlat(layout, flat, []int{e1, e1, e2, len(flat)}))
+		case "multilinestring":
+			res = xy.ConvexHull(geom.NewMultiLineStringFlat(layout, flat, []int{e1, e2, e2, len(flat)}))
+		default:
+			res = xy.ConvexHull(geom.NewMultiPolygonFlat(layout, flat, [][]int{{e1}, {}, {e2, len(flat)}}))
+		}
 	default:
 		return fmt.Errorf("bad via %q", c.Via)
 	}
